@@ -34,7 +34,7 @@ PLANS = {
     'C06': {'jobs': [J('chan', W124, 4), J('chan', [2], 2, 'asan'), S('chanrace', [1, 2, 4], 2), D('chan', [1, 2], 'CH_,SEM_,SYNCBLOCKER_')]},
     'C07': {'jobs': [J('dis', W124, 3), J('disrx', W124, 1), J('dis', [2], 1, 'asan'), S('disrace', W124, 2), D('dis', [1, 2], 'CH_,SEM_')]},
     'C08': {'jobs': [J('tmr', W124, 3), J('tmrmix', W124, 1), J('tmr', [2, 4], 1, 'asan'), S('tmrrace', W124, 2), D('tmr', [1, 2], 'TT_,TL_,TIMER_,SLEEP_,LIST_,PARK_SUB')]},
-    'C09': {'jobs': [J('can', W124, 3), J('mutexc', [2], 1), J('semc', [1, 2], 1), J('cvc', [2], 1), J('relock', [2], 1), J('rwc', [2], 1), J('rwcr', [2], 1), J('iocan', [2], 1),
+    'C09': {'jobs': [J('can', W124, 3), J('mutexc', [2], 1), J('semc', [1, 2], 1), J('cvc', [2], 1), J('relock', [2], 1), J('rwc', [2], 1), J('rwcr', [2], 1), J('iocan', [2], 1), J('iocant', [2], 1),
                      J('can', [2, 4], 1, 'asan'), S('hsmutex', [2], 1), S('hssem', [2], 1), D('can', [2], 'CANCEL_,PARK_SUB,MUTEX_CANCEL,SEM_,CV_')]},
     'C10': {'jobs': [J('sem', W124, 2), J('semc', W124, 1), J('flag', W124, 1), J('semc', [2], 1, 'asan'), S('hssem', [2, 4], 2), S('semrace', [2, 4], 1), D('sem', [1, 2], 'SEM_,SYNCBLOCKER_'), D('semlock', [1, 2], 'SEM_,SYNCBLOCKER_'), J('semlock', [2, 4], 1), D('flag', [2], 'FLAG_')]},
     'C11': {'jobs': [J('cv', W124, 2), J('cvc', W124, 1), J('relock', W124, 1), J('bar', W124, 1), J('cvc', [2], 1, 'asan'), S('cvrace', [2, 4], 2), D('cv', [1, 2], 'CV_,SYNCBLOCKER_,MUTEX_'), D('cvc', [2], 'CV_,SYNCBLOCKER_,MUTEX_CANCEL')]},
@@ -46,7 +46,7 @@ PLANS = {
     'C16': {'jobs': [J('sel', W124, 2), J('cq', W124, 2), J('cq', [2, 4], 1, 'asan'), S('cqrace', [2, 4], 2), D('cq', [1, 2], 'CQ_'), D('sel', [2], 'CQ_')]},
     'C17': {'jobs': [J('io', W124, 2), J('tcp', W124, 1), J('dgram', W124, 1), J('io', [2], 1, 'asan'), J('tcp', [2], 1, 'asan'), J('iochurn', W124, 1), J('unixsrv', [2, 4], 1), S('iorace', [1, 2, 4], 2),
                      J('tcp', [16], 1, thorough_only=True), J('iochurn', [16], 1, thorough_only=True), S('unixsrv', [16], 1, thorough_only=True), D('io', [2], 'IO_READ,IO_WRITE,EP_,IOTHREAD_'), D('tcp', [2], 'IO_ACCEPT,IO_CONNECT,EP_')]},
-    'C18': {'jobs': [J('iot', W124, 3), J('iocan', W124, 2), J('iot', [2], 1, 'asan'), D('iot', [2], 'IO_,EP_,TL_,LIST_'), D('iocan', [2], 'IO_,CANCEL_')]},
+    'C18': {'jobs': [J('iot', W124, 3), J('iocan', W124, 2), J('iocant', W124, 1), J('iot', [2], 1, 'asan'), D('iot', [2], 'IO_,EP_,TL_,LIST_'), D('iocan', [2], 'IO_,CANCEL_')]},
     'C03': {'engine': 'q', 'jobs': [J('q', lane='q'), J('q', lane='qasan'), J('q', lane='qtsan')]},
     'C04': {'engine': 'q', 'jobs': [J('q', lane='q'), J('q', lane='qasan')]},
     'C19': {'engine': 'q', 'jobs': [J('q', lane='q'), J('q', lane='qasan')]},
